@@ -21,7 +21,7 @@ from .ctx import SymCtx, ConcCtx, PathEnd, ReplayMismatch, Violation, TapeEnd
 from .engine import Engine, HarnessError, frac_of
 
 VERIF = os.path.dirname(os.path.dirname(os.path.abspath(__file__)))
-EVID = os.path.join(VERIF, "evidence")
+EVID = os.environ.get("VERIF_EVID_DIR") or (os.path.join(VERIF, "evidence") if os.path.realpath(os.environ.get("PYXAB_SRC", "/repo")) == "/repo" else os.path.join(VERIF, "evidence", "_other_source_tree"))
 NPROC = int(os.environ.get("VERIF_NPROC", "0")) or min(16, os.cpu_count() or 4)
 
 
